@@ -32,6 +32,11 @@ CLAIMED = {
          "Global transactions with 1..3 Prepare calls over 3 actions (ASCII, punctuated and non-ASCII names) x 13 parameter shapes (tagged / untagged / unexported / ignored fields, nested structs, maps, slices, nil and non-nil pointers, interface values, embedded action context by pointer / nil pointer / value with pre-filled entries, bare contexts, non-struct values, nil) x try outcome x registration {granted, refused, unanswered} x phase-two sequence {single, 2-3 repeats, unknown resource, empty / non-JSON / non-object application data, commit then rollback} x user outcome {ok, error then ok, false, panic}: one TCC BranchRegister with the modelled application data strictly before try; no try after a failed registration; per request exactly one call of the matching method with the same xid / branch id and a JSON-equivalent context; success status iff the user method returned no error; unknown resources and unreadable data run no user code, report no success and leave the client alive.",
          "A request whose user method failed may stay unanswered or carry a retryable-failed status. The try outcome is scripted per action within one case.",
          "DESIGN.md §4 C05"),
+ "C06": ("fault_enumeration",
+         "runtime monitor with fault injection: deliveries of prepare / commit / rollback run in a client child the way the fence API is meant to be used (one local transaction holds fence.WithFence and a business effect row); after every delivery the fence table and the effects table of the fake database are compared with a five-state model and with the invariant 'effect rows <-> fence status'; a second stream drives the fence driver (two connections)",
+         "ALL delivery sequences over {prepare, commit, rollback} of length 1..4 (plus a failing / panicking business method at one position), random interleavings of 2-3 branches sharing the table; for 9 base sequences a database failure {error, connection lost before / after execution} at every command index of every step followed by a clean redelivery; 8 racing pairs x 12; fence driver: every command index of prepare / commit / rollback. Verdicts: each effect at most once, never confirm and cancel, empty rollback records a suspension without effect and a later try is refused, record and effect commit or roll back together, nil error exactly when the model accepts.",
+         "The business effect is written through the transaction passed to WithFence, committed iff WithFence returned nil. For the fence driver only the 'together' clause is judged (its BeginTx cannot tell the caller to skip a duplicate); open finding C06-K1.",
+         "DESIGN.md §4 C06"),
  "C07": ("exploration",
          "runtime monitor: real WithGlobalTx scope trees and gRPC/gin/dubbo integrations in a client child against the fake coordinator; oracle = reference interpreter of the documented propagation semantics over the coordinator's per-xid request log plus context observations inside and after every scope",
          "ALL scope chains up to depth 3 over six propagation modes x two outcomes, for a shared context and for a fresh context carrying the xid, plus sampled two-child trees; per logical transaction the begin and the single decision by its launcher, xid/role seen by every callback, precondition failures of Mandatory/Never, and integrity of the enclosing context after each inner scope are compared with the model. Integrations are coupled through the real metadata/http/attachment carriers with generated xid strings and every accepted key spelling.",
